@@ -238,7 +238,8 @@ def stitch_once(case, first, ss_objs, args):
     viol = None
     before = [observe(s) for s in ss_objs]
     try:
-        r = df_slice(first, n=case['n'], **args)
+        # the first stitching clause is about the DEFAULT n: leave the argument out when the case says so
+        r = df_slice(first, **args) if (case['n'] == 1 and case.get('n_omit')) else df_slice(first, n=case['n'], **args)
     except Exception as e:
         name = type(e).__name__
         expected_err = case['mode'] == 'both' and _dir(case['lbs']) != _dir(case['ubs'])
@@ -352,7 +353,7 @@ def impl(case):
     ss_objs = mk_list(case)
     ubs = [T(u) for u in case['ubs']]
     try:
-        f = df_slice(ss_objs, ub=py_bound_list(case['ubs'], case['ubs']), n=case['n'])
+        f = df_slice(ss_objs, ub=py_bound_list(case['ubs'], case['ubs'])) if (case['n'] == 1 and case.get('n_omit')) else df_slice(ss_objs, ub=py_bound_list(case['ubs'], case['ubs']), n=case['n'])
         r = df_unslice(f, ubs)
         keys = list(r.keys())
         f2 = df_slice(list(r.values()), ub=keys, n=case['n'])
@@ -455,6 +456,7 @@ def decorate(rng, c):
         if r() < 0.5: c['cols'] = rng.choice([['a', 'b'], ['z', 'y'], [10, 5], ['a', 'a'], [('p', 1), ('p', 2)]])[:c['k']]
         if r() < 0.3: c['iname'] = rng.choice(['date', 't'])
         if r() < 0.25 and not c.get('tuple'): c['kw'] = True
+    if c['kind'] != 'slice' and r() < 0.6: c['n_omit'] = True       # n = 1 given by default rather than explicitly
     if r() < 0.5: c['bform'] = rng.choice(BFORMS)
     if r() < 0.3 and c.get('unit') != 'us': c['epoch'] = rng.choice(['1700', '1970', '2250'])
     return c
